@@ -55,6 +55,11 @@ type c17Peer struct {
 	members  map[c17Member]bool // membership NLRI currently announced -> accepted by the import policy
 	lastMsg  map[c17PathKey]*bgp.BGPMessage
 	rxBase   int // len(sp.rx) when the current session started
+
+	// graceful restart (PE speakers only, RFC 4724 helper role of gobgp, no LLGR)
+	gr         uint32    // restart time the speaker advertises (0 = no graceful restart capability)
+	restarting bool      // gobgp retains this speaker's routes as stale: until the timer fires or, once it is back, its End-of-RIBs
+	staleUntil time.Time // when the restart timer fires (only meaningful while the session is down)
 }
 
 func (p *c17Peer) addr() string { return p.spec.Addr }
@@ -75,6 +80,7 @@ type c17Hist struct {
 	vrfs  []*c17Vrf // all slots, present or not
 
 	rtcPolicy bool // global import policy rejecting rtc routes with AS_PATH length >= 3
+	medPolicy bool // global import policy rewriting MED of every VPN route (what the table holds is a clone of the Adj-RIB-In path)
 	collide   bool // the same prefix may appear under several RDs importable into one VRF
 
 	pePool  []c17KeySpec
@@ -263,6 +269,9 @@ func (h *c17Hist) genPeers() []*c17Peer {
 	for i := 0; i < nPE; i++ {
 		p := mk(c17PE)
 		p.apVPN = r.IntN(3) == 0
+		if r.IntN(2) == 0 {
+			p.gr = []uint32{3, 8, 12, 20}[r.IntN(4)]
+		}
 		out = append(out, p)
 	}
 	for i := 0; i < nRTC; i++ {
@@ -300,6 +309,12 @@ func (h *c17Hist) genPeers() []*c17Peer {
 						ap.AfiSafis = append(ap.AfiSafis, c17AfiSafi(f, p.apVPN, 0))
 					}
 				}
+				if p.gr > 0 {
+					ap.GracefulRestart = &api.GracefulRestart{Enabled: true, RestartTime: p.gr}
+					for _, af := range ap.AfiSafis {
+						af.MpGracefulRestart = &api.MpGracefulRestart{Config: &api.MpGracefulRestartConfig{Enabled: true}}
+					}
+				}
 			}
 			p.spec.SpeakerMod = func(c *simSpeakerConf) {
 				c.Families = fams
@@ -309,14 +324,27 @@ func (h *c17Hist) genPeers() []*c17Peer {
 						c.AddPath[f] = bgp.BGP_ADD_PATH_SEND
 					}
 				}
+				if p.gr > 0 {
+					var gt []*bgp.CapGracefulRestartTuple
+					for _, f := range fams {
+						gt = append(gt, bgp.NewCapGracefulRestartTuple(f, true))
+					}
+					c.ExtraCaps = append(c.ExtraCaps, bgp.NewCapGracefulRestart(false, false, uint16(p.gr), gt))
+				}
 			}
 		}
 	}
 	return out
 }
 
-func (h *c17Hist) installRTCPolicy() error {
+func (h *c17Hist) installPolicies() error {
 	ctx := context.Background()
+	med := &api.Statement{
+		Name: "c17-vpn-med",
+		Conditions: &api.Conditions{AfiSafiIn: []*api.Family{
+			{Afi: api.Family_AFI_IP, Safi: api.Family_SAFI_MPLS_VPN}, {Afi: api.Family_AFI_L2VPN, Safi: api.Family_SAFI_EVPN}}},
+		Actions: &api.Actions{RouteAction: api.RouteAction_ROUTE_ACTION_ACCEPT, Med: &api.MedAction{Type: api.MedAction_TYPE_REPLACE, Value: 77}},
+	}
 	stmt := &api.Statement{
 		Name: "c17-reject-long-rtc",
 		Conditions: &api.Conditions{
@@ -325,7 +353,13 @@ func (h *c17Hist) installRTCPolicy() error {
 		},
 		Actions: &api.Actions{RouteAction: api.RouteAction_ROUTE_ACTION_REJECT},
 	}
-	pol := &api.Policy{Name: "c17-import", Statements: []*api.Statement{stmt}}
+	pol := &api.Policy{Name: "c17-import"}
+	if h.rtcPolicy {
+		pol.Statements = append(pol.Statements, stmt)
+	}
+	if h.medPolicy {
+		pol.Statements = append(pol.Statements, med)
+	}
 	if err := h.n.s.AddPolicy(ctx, &api.AddPolicyRequest{Policy: pol}); err != nil {
 		return err
 	}
@@ -981,6 +1015,29 @@ func (h *c17Hist) evCEWithdraw() {
 
 func (h *c17Hist) sessionDown(p *c17Peer) {
 	p.up = false
+	p.lastMsg = map[c17PathKey]*bgp.BGPMessage{}
+	if p.gr > 0 {
+		// graceful: gobgp retains the routes as stale (each is re-fed to the table as a stale-marked copy of itself)
+		p.restarting = true
+		p.staleUntil = time.Now().Add(time.Duration(p.gr) * time.Second)
+		n := 0
+		for pk, rt := range h.m.routes {
+			if pk.src == p.addr() {
+				if rt.stale {
+					// RFC 4724 4.2: still stale from the previous restart (never announced again): deleted now
+					h.delRoute(pk, "route-lost-second-restart")
+					h.events["gr-stale-routes-dropped"]++
+					continue
+				}
+				rt.stale = true
+				n++
+			}
+		}
+		if n > 0 {
+			h.events["gr-routes-retained"] += n
+		}
+		return
+	}
 	for pk := range h.m.routes {
 		if pk.src == p.addr() {
 			h.delRoute(pk, "route-lost-session-down")
@@ -1007,6 +1064,10 @@ func (h *c17Hist) evFlap() {
 	p.sp.close()
 	h.sessionDown(p)
 	h.ev("session-down", p.addr())
+	if p.gr > 0 {
+		h.ev("session-down-graceful", p.addr())
+		h.events["flap-graceful"]++
+	}
 	h.events["flap"]++
 	h.events["flap-"+p.role.String()]++
 	h.logf("close %s (%s)", p.addr(), p.role)
@@ -1026,7 +1087,103 @@ func (h *c17Hist) bringUp(p *c17Peer) bool {
 	p.upAt = time.Now()
 	p.eorSent = false
 	h.note("peer:"+p.addr(), "session-up")
+	if p.restarting {
+		// back before the restart timer fired: the stale routes stay until its End-of-RIBs; otherwise they are gone.
+		// Exactly at the timer's instant the order of the two is gobgp's free choice: ask it (only then).
+		inTime := p.upAt.Before(p.staleUntil)
+		if p.upAt.Equal(p.staleUntil) {
+			h.n.s.mgmtOperation(func() error {
+				if gp, ok := h.n.s.neighborMap[netip.MustParseAddr(p.addr())]; ok {
+					inTime = gp.fsm.pConf.ReadOnly().GracefulRestart.State.PeerRestarting
+				}
+				return nil
+			}, false)
+			h.events["gr-tie-resolved-by-state"]++
+		}
+		if inTime {
+			h.events["gr-back-in-time"]++
+		} else {
+			h.dropStale(p, "route-lost-gr-timer")
+		}
+	}
 	return true
+}
+
+// dropStale removes the routes of p that gobgp retained as stale and that p did not announce again.
+func (h *c17Hist) dropStale(p *c17Peer, kind string) {
+	p.restarting = false
+	for pk, rt := range h.m.routes {
+		if pk.src == p.addr() && rt.stale {
+			h.delRoute(pk, kind)
+			h.events["gr-stale-routes-dropped"]++
+		}
+	}
+}
+
+// expireGR: restart timers that have fired while their speaker was still away.
+func (h *c17Hist) expireGR() {
+	for _, p := range h.peers {
+		if p.restarting && !p.up && !time.Now().Before(p.staleUntil) {
+			h.dropStale(p, "route-lost-gr-timer")
+			h.events["gr-timer-expired"]++
+		}
+	}
+}
+
+// evGREor: a speaker that came back sends its End-of-RIB markers: what it did not announce again goes.
+func (h *c17Hist) evGREor() {
+	var c []*c17Peer
+	for _, p := range h.peers {
+		if p.up && p.gr > 0 {
+			c = append(c, p)
+		}
+	}
+	if len(c) == 0 {
+		return
+	}
+	p := c[h.r.IntN(len(c))]
+	for _, f := range c17VPNFams {
+		if p.sp.sendMsg(bgp.NewEndOfRib(f)) != nil {
+			return
+		}
+	}
+	h.ev("gr-end-of-rib", p.addr())
+	if p.restarting {
+		h.dropStale(p, "route-lost-gr-end-of-rib")
+		h.events["gr-eor-ends-restart"]++
+	}
+	h.events["gr-eor"]++
+	h.logf("gr-eor %s", p.addr())
+}
+
+// evSoftResetIn: the operator re-evaluates the import policy for one neighbour: every Adj-RIB-In path is fed to the
+// table again (the very same path, or a fresh policy-made copy of it). Nothing changes in the model.
+func (h *c17Hist) evSoftResetIn() {
+	var ups []*c17Peer
+	for _, p := range h.peers {
+		if p.up {
+			ups = append(ups, p)
+		}
+	}
+	if len(ups) == 0 {
+		return
+	}
+	p := ups[h.r.IntN(len(ups))]
+	if err := h.n.s.ResetPeer(context.Background(), &api.ResetPeerRequest{Address: p.addr(), Soft: true, Direction: api.ResetPeerRequest_DIRECTION_IN}); err != nil {
+		h.rec.Inconclusive("c17: ResetPeer(soft in): " + err.Error())
+		return
+	}
+	if !h.medPolicy {
+		for pk, rt := range h.m.routes {
+			if pk.src == p.addr() && p.role != c17CE {
+				rt.refed = true
+			}
+		}
+	}
+	h.ev("soft-reset-in", p.addr())
+	h.events["soft-reset-in"]++
+	h.events["soft-reset-in-"+p.role.String()]++
+	h.logf("soft-reset-in %s (%s)", p.addr(), p.role)
 }
 
 func (h *c17Hist) evReestablish() bool {
@@ -1046,8 +1203,12 @@ func (h *c17Hist) evReestablish() bool {
 
 func (h *c17Hist) step() bool {
 	h.ev("noop", "")
-	k := h.r.IntN(100)
+	k := h.r.IntN(108)
 	switch {
+	case k >= 104:
+		h.evGREor()
+	case k >= 100:
+		h.evSoftResetIn()
 	case k < 22:
 		h.evVPNAnnounce()
 	case k < 30:
